@@ -29,6 +29,20 @@ def modes(tier):
     return out
 
 
+CONTROL_PREFIXES = ['C01.2.shift/engine::shift_pieces_in_direction/Right:', 'C01.2.shift/engine::shift_pieces_in_opp_direction/Up:',
+                    'C01.2.shift/engine::shift_in_direction/Left:', 'C01.2.influence/engine::influenced_squares/',
+                    'C01.2.support/engine::supported_pieces/', 'C01.2.shift/engine::can_move_in_direction/']
+
+
+def controls(cprog, cfacts):
+    """the geometry rules must fire on the deliberately broken helpers of the controls crate"""
+    from . import core
+    c = core.Ctx('C01', 'control', 'other')
+    I = inputs.make_interp(cprog)
+    rules_geom.check_helper_footprints(c, cprog, I, rule='C01.2')
+    keys = [f['key'] for f in c.findings]
+    return [p for p in CONTROL_PREFIXES if not any(k.startswith(p) for k in keys)]
+
 def run(ctx, prog, facts, tier):
     I = inputs.make_interp(prog, fuel=5000000)
     rules_geom.check_constants(ctx, prog, which=['LEFT_COLUMN_MASK', 'RIGHT_COLUMN_MASK', 'TOP_ROW_MASK',
